@@ -6,7 +6,7 @@ node = {"path": [names], "params": pform|None, "cells": [[name, [params], expr],
         "raw_params": "lambda ...: ..." (witnesses only)}
 pform = {"sig": [[name, default|None], ...], "body": pbody}
 pbody = None | {"base": [names]|None, "refs": [[name, pexpr], ...]} | ["if", pexpr, pbody, pbody]
-pexpr = ["c", int] | ["p", name] | ["b", "+|-|*", pexpr, pexpr]
+pexpr = ["c", int] | ["p", name] | ["b", "+|-|*", pexpr, pexpr] | ["scall", path, cells] (call of a static cells; (P) only)
 expr  = ["c", int] | ["n", name] | ["b", op, e, e] | ["if", c, a, b] | ["call", cells, [e...]] | ["child", X, cells, [e...]]
 
 op = {"op": "getitem", "par": {"s": path} | {"h": handle index}, "pos": [ints], "kw": {name: int}, "style": "idx"|"call"}
@@ -17,6 +17,7 @@ op = {"op": "getitem", "par": {"s": path} | {"h": handle index}, "pos": [ints], 
    | {"op": "delcells", "p": path, "c": name} | {"op": "setref", "p": path, "x": name, "v": int}
    | {"op": "delref", "p": path, "x": name} | {"op": "newspace", "q": path, "params": pform|None}
    | {"op": "delspace", "q": path} | {"op": "setparams", "p": path, "params": pform|None}
+   | {"op": "setglobal", "x": name, "v": int} | {"op": "delglobal", "x": name}      references of the model
    | {"op": "clearitems", "p": path} | {"op": "delitem", "p": path, "key": [ints]}
    | {"op": "setref_obj", "p": path, "x": name, "target": path, "c": cells}   (witness D15 only)
 
@@ -71,6 +72,8 @@ def r_pexpr(e):
         return e[1]
     if t == "b":
         return "(%s %s %s)" % (r_pexpr(e[2]), e[1], r_pexpr(e[3]))
+    if t == "scall":      # call of a cells of a static space: (P)-only vocabulary, outside Dyn/Model.v
+        return "_model.%s.%s()" % (".".join(e[1]), e[2])
     raise ValueError(e)
 
 
@@ -124,9 +127,11 @@ def add_node(m, nd):
 _count = [0]
 
 
-def build(defs):
+def build(defs, globs=None):
     _count[0] += 1
     m = mx.new_model("M%d" % _count[0])
+    for x, v in (globs or {}).items():
+        setattr(m, x, v)
     for nd in defs:
         add_node(m, nd)
     return m
@@ -192,12 +197,13 @@ from dynmirror import apply_edit
 def run_case(case):
     close_all()
     defs = json.loads(json.dumps(case["defs"]))
+    globs = {}
     m = build(defs)
     fresh = [None]          # fresh model of the current definitions, rebuilt lazily after an edit
 
     def fresh_model():
         if fresh[0] is None:
-            fresh[0] = build(defs)
+            fresh[0] = build(defs, globs)
         return fresh[0]
 
     handles, recipes = [], []      # space handles
@@ -290,6 +296,10 @@ def run_case(case):
                         sp.formula = r_pform(op["params"])
                     else:
                         del sp.formula
+                elif k == "setglobal":
+                    setattr(m, op["x"], op["v"])
+                elif k == "delglobal":
+                    delattr(m, op["x"])
                 elif k == "clearitems":
                     nav_static(m, op["p"]).clear_items()
                 elif k == "delitem":
@@ -303,7 +313,7 @@ def run_case(case):
             else:
                 st["out"] = ["done"]
                 if k not in ("clearitems", "delitem", "setref_obj"):
-                    apply_edit(defs, op)
+                    apply_edit(defs, op, globs)
                     if fresh[0] is not None:
                         try:
                             fresh[0].close()
